@@ -19,7 +19,8 @@ def viaOfStr : String → Except String Via
   | s => throw s!"bad via {s}"
 
 /-- action = {"id": n, "steps": [step…], "raise": null | "name"};
-step = ["sched", via, mode, t, action] | ["cancel", id] | ["stop"] | ["sleep", t] -/
+step = ["sched", via, mode, t, action] | ["cancel", id] | ["stop"] | ["sleep", t]
+| ["advance_to", t, caught] | ["advance_by", d, caught] | ["start"]   (re-entrant calls from inside the action) -/
 partial def actOfJson (j : Json) : Except String (Nat × Act) := do
   let id ← getNat j "id"
   let steps ← getArr j "steps"
@@ -34,6 +35,9 @@ partial def actOfJson (j : Json) : Except String (Nat × Act) := do
     | .arr #[.str "cancel", i] => pure (Act.cancel (← i.getNat?) acc)
     | .arr #[.str "stop"] => pure (Act.stop acc)
     | .arr #[.str "sleep", t] => pure (Act.sleep (← t.getInt?) acc)
+    | .arr #[.str "advance_to", t, .bool c] => pure (Act.ctl (.advTo (← t.getInt?) c) acc)
+    | .arr #[.str "advance_by", d, .bool c] => pure (Act.ctl (.advBy (← d.getInt?) c) acc)
+    | .arr #[.str "start"] => pure (Act.ctl .start acc)
     | _ => throw s!"bad step {st.compress}"
   pure (id, body)
 
